@@ -86,6 +86,14 @@ def gen_case(rng, name, exact=False):
         # the operators are defined for any frequency axis, not only one that starts at 0 Hz: a band-limited spectrum whose first sample is a
         # genuine spectral sample (it is excluded by its value only when it is the 0 Hz sample)
         f = f[int(rng.integers(1, 4)):]
+    elif f.size > 4 and rng.random() < 0.3:
+        # nor is equal spacing part of the definition of the six windowed operators (only Savitzky-Golay documents it): an ascending axis with
+        # geometric spacing, or with two different spacings
+        if rng.random() < 0.5:
+            f = np.geomspace(max(f[1], 1e-3), f[-1], f.size)
+        else:
+            h = f.size // 2
+            f = np.concatenate([np.linspace(f[1], f[h], h, endpoint=False), np.linspace(f[h], f[-1], 3 * (f.size - h))])
     nfc = int(rng.integers(1, 9))
     mode = rng.integers(0, 4)
     if mode == 0:
